@@ -1,11 +1,63 @@
 (** C08 — Static evaluation never disagrees with real execution.
-    (interim: the soundness theorems are being proved in Proof/EvaluatorSound.v) *)
-From DL Require Import Lib.Bytes Lib.F64 Lua.Syntax Lua.Sem Model.Evaluator Lua.EvalSpec.
+    Only statements, closed by [exact], with their assumptions printed and pinned.
+    [eval] is the reference semantics (Lua/Sem.v); [evaluate], [has_side_effects],
+    [can_return_multiple_values] the model of darklua's evaluator (Model/Evaluator.v). *)
+From DL Require Import Lib.Bytes Lib.F64 Lua.Syntax Lua.Sem Model.Evaluator Lua.EvalSpec Lua.EvalSpec2
+  Proof.EvaluatorSound.
 Open Scope N_scope.
 
-Theorem C08_prefix_side_effects_is_conservative : forall pm p,
-  match p with ECall _ _ _ => has_side_effects pm p = true | _ => True end.
-Proof. intros pm [] ; exact I || reflexivity. Qed.
-Print Assumptions C08_prefix_side_effects_is_conservative.
-Check C08_prefix_side_effects_is_conservative : forall pm p,
-  match p with ECall _ _ _ => has_side_effects pm p = true | _ => True end.
+(** A definite static value is the value execution yields (bit-exact on numbers), for every
+    dialect, fuel, environment, varargs and store, unless execution errs.  Preconditions:
+    the expression does not depend on behaviour where the two dialects render numbers / compute
+    [%] differently ([deep_safe]), the table constructors it looks past have pure entries
+    ([ctor_pure]), globals table and string metatable are the pristine ones ([env_plain]). *)
+Theorem C08_evaluate_sound : forall d e n rho va s vs s',
+  deep_safe d e = true -> ctor_pure d e = true -> env_plain s ->
+  eval d n rho va e s = Ok vs s' -> lv_matches s' (evaluate e) (first vs).
+Proof. exact evaluate_sound. Qed.
+Print Assumptions C08_evaluate_sound.
+Check C08_evaluate_sound : forall d e n rho va s vs s',
+  deep_safe d e = true -> ctor_pure d e = true -> env_plain s ->
+  eval d n rho va e s = Ok vs s' -> lv_matches s' (evaluate e) (first vs).
+
+(** "No side effects" means: no event, no oracle consumption, every existing cell, table and
+    closure unchanged - execution only adds fresh allocations (so no external call and no
+    metamethod ran). *)
+Theorem C08_pure_sound : forall d e n rho va s vs s',
+  has_side_effects false e = false -> deep_safe d e = true -> env_plain s ->
+  eval d n rho va e s = Ok vs s' -> store_extends s s'.
+Proof. exact pure_sound. Qed.
+Print Assumptions C08_pure_sound.
+Check C08_pure_sound : forall d e n rho va s vs s',
+  has_side_effects false e = false -> deep_safe d e = true -> env_plain s ->
+  eval d n rho va e s = Ok vs s' -> store_extends s s'.
+
+(** ... and then its value is the static one as well (no [ctor_pure] needed). *)
+Theorem C08_pure_evaluate_sound : forall d e n rho va s vs s',
+  has_side_effects false e = false -> deep_safe d e = true -> env_plain s ->
+  eval d n rho va e s = Ok vs s' -> lv_matches s' (evaluate e) (first vs).
+Proof. exact pure_evaluate_sound. Qed.
+Print Assumptions C08_pure_evaluate_sound.
+Check C08_pure_evaluate_sound : forall d e n rho va s vs s',
+  has_side_effects false e = false -> deep_safe d e = true -> env_plain s ->
+  eval d n rho va e s = Ok vs s' -> lv_matches s' (evaluate e) (first vs).
+
+(** "Single value" verdicts are right, unconditionally. *)
+Theorem C08_single_sound : forall d n rho va e s vs s',
+  can_return_multiple_values e = false ->
+  eval d n rho va e s = Ok vs s' -> List.length vs = 1%nat.
+Proof. exact single_sound. Qed.
+Print Assumptions C08_single_sound.
+Check C08_single_sound : forall d n rho va e s vs s',
+  can_return_multiple_values e = false ->
+  eval d n rho va e s = Ok vs s' -> List.length vs = 1%nat.
+
+(** the preconditions are necessary (witnesses by computation) *)
+Theorem C08_refuted_without_dialect_agreement : exists d e n rho va s vs s',
+  ctor_pure d e = true /\ env_plain s /\ eval d n rho va e s = Ok vs s' /\
+  ~ lv_matches s' (evaluate e) (first vs).
+Proof. exact evaluate_sound_refuted_dialect. Qed.
+Print Assumptions C08_refuted_without_dialect_agreement.
+Check C08_refuted_without_dialect_agreement : exists d e n rho va s vs s',
+  ctor_pure d e = true /\ env_plain s /\ eval d n rho va e s = Ok vs s' /\
+  ~ lv_matches s' (evaluate e) (first vs).
